@@ -188,6 +188,72 @@ func propC06(c *ctx) error {
 			}
 		}
 	}
+	// ---- a binding made on an element is visible to EVERY effect of that element and to its descendants, whatever other
+	// directives the element carries (subsets of size <= 2 of the other directive kinds, attributes in random order),
+	// and never to the following sibling.  Oracle independent of the model: inside the element's output every probe
+	// `[${x}]` shows the inner value, the sibling probe `(${x})` shows the outer one.
+	{
+		extras := []string{
+			``, ` :remove="all"`, ` :remove="body"`, ` :remove="tag"`, ` :remove="all-but-first"`, ` :remove="none"`,
+			` :if="${x == 'in'}"`, ` :title="[${x}]"`, ` :range="_, y : two"`, ` :text="[${x}]"`, ` :raw="[${x}]"`,
+			` :insert="f"`, ` :replace="f"`, ` class="[c]"`, ` :range="_, x : ins"`,
+		}
+		binders := []string{` :with="x := ${'in'}"`, ` :with="z := ${1}; x := ${'in'}"`}
+		r := newRng(c.seed, "C06matrix")
+		frag := `<template :define="f"><q :text="[${x}]">o</q><q :title="[${x}]">p</q></template>`
+		for bi, binder := range binders {
+			for i, e1 := range extras {
+				for j, e2 := range extras {
+					if j < i || (i == j && i != 0) {
+						continue
+					}
+					k1, k2 := strings.SplitN(strings.TrimSpace(e1), "=", 2)[0], strings.SplitN(strings.TrimSpace(e2), "=", 2)[0]
+					if e1 != "" && k1 == k2 {
+						continue // the same attribute twice is a scanner error
+					}
+					if (k1 == ":insert" && k2 == ":replace") || (k1 == ":text" && k2 == ":raw") {
+						continue
+					}
+					if c.quick() && bi == 1 && (i+j)%3 != 0 {
+						continue
+					}
+					for _, tag := range []string{"u", "t:block"} {
+						as := []string{binder}
+						if e1 != "" {
+							as = append(as, e1)
+						}
+						if e2 != "" {
+							as = append(as, e2)
+						}
+						r.shuffle(as)
+						tpl := frag + `<` + tag + strings.Join(as, "") + `><li :text="[${x}]">o</li> <li :title="[${x}]">p</li></` + tag + `><i :text="(${x})">o</i>`
+						data := vMap(kv{"x", vStr("d")}, kv{"two", vIntSlice(1, 2)}, kv{"ins", vAnySlice(vStr("in"), vStr("in"))}).j
+						rc := &renderCase{Files: [][2]string{{"t", tpl}}, Tpl: "t", Data: data, Global: vMap(kv{"x", vStr("global-x")}).j}
+						impl, _, err := compareRender(c, rc, true)
+						if err != nil {
+							return err
+						}
+						res.eval("mx|"+tpl, true, J{"tpl": tpl})
+						res.S3Checked++
+						res.count("binding_matrix_cases")
+						out := impl.text()
+						bad := ""
+						switch {
+						case impl.St != "ok":
+							bad = "render failed"
+						case strings.Contains(out, "[d]") || strings.Contains(out, "[global-x]"):
+							bad = "an effect or descendant of the binding element resolved the name outside the element's own binding"
+						case !strings.HasSuffix(out, "<i>(d)</i>"):
+							bad = "the binding leaked to the following sibling (or the sibling was not rendered)"
+						}
+						if bad != "" {
+							res.violate(rc.toJ(), "every [..] probe shows `in`, the sibling probe shows (d)", J{"st": impl.St, "out": out, "err": trunc(impl.Err, 160)}, "binding visibility with other directives on the same element: "+bad)
+						}
+					}
+				}
+			}
+		}
+	}
 	// nil data / struct data at the top level
 	for _, t := range []struct {
 		data val
